@@ -269,6 +269,10 @@ class Body:
                     out.append(("call", callee, [self.origin(a) for a in node["args"]], bb, cinfo))
                 elif node["rv"]["k"] == "use":
                     out.extend(self.origins(node["rv"]["op"], depth + 1))
+                elif node["rv"]["k"] == "bin":
+                    out.append(("bin", node["rv"]["op"], self.origin(node["rv"]["a"], depth + 1), self.origin(node["rv"]["b"], depth + 1)))
+                elif node["rv"]["k"] == "cast":
+                    out.extend(self.origins(node["rv"]["op"], depth + 1))
                 else:
                     out.append(("rv", node["rv"]["k"]))
             return out or [o]
